@@ -42,6 +42,9 @@ const (
 	// confirmed defect classes (see the TestVerifC27Regress* tests and sensitivity/C27.md)
 	c27KeyUnparsable = "c27-unparsable-segment-fails-whole-path" // cut segment without a complete part: /list 500, /get 4xx
 	c27KeyTornTail   = "c27-torn-tail-aborts-get"                // cut inside a part: /get aborts / returns garbage
+	// recorder: the first segment may start at an audio sample later than the first video key frame, which is then
+	// discarded as "too late": the recording begins with a non-random-access video sample
+	c27KeyFirstKeyframe = "c27-first-video-keyframe-discarded"
 )
 
 type c27State struct {
@@ -286,10 +289,10 @@ func c27Closed(built *rbBuilt, disk []rbDiskSession, srv *Server, tol time.Durat
 			}
 			hdr := time.Duration(sg.Info.MvhdDuration) * time.Second / time.Duration(sg.Info.MvhdTimescale)
 			truth := segEnd[gi].Sub(sg.Start)
-			if rbAbsDur(hdr-truth) > time.Millisecond+tol {
+			if rbAbsDur(hdr-truth) > time.Millisecond+30*time.Microsecond {
 				return fmt.Errorf("session %d segment %d (%s): header duration %v, true duration %v", si, gi, sg.Path, hdr, truth)
 			}
-			if d := built.Sessions[si].Completed[gi]; rbAbsDur(d-truth) > time.Millisecond+tol {
+			if d := built.Sessions[si].Completed[gi]; rbAbsDur(d-truth) > time.Millisecond+30*time.Microsecond {
 				return fmt.Errorf("session %d segment %d: OnSegmentComplete reported %v, true duration %v", si, gi, d, truth)
 			}
 			if spec.Video != "" {
@@ -297,7 +300,9 @@ func c27Closed(built *rbBuilt, disk []rbDiskSession, srv *Server, tol time.Durat
 				if fv == nil {
 					return fmt.Errorf("session %d segment %d holds no video sample", si, gi)
 				}
-				if fv.NonSync || !fv.Fed.Sync {
+				if (fv.NonSync || !fv.Fed.Sync) && gi == 0 && kit.Known(c27KeyFirstKeyframe) {
+					kit.R("TestVerifC27Crash").Excluded(c27KeyFirstKeyframe)
+				} else if fv.NonSync || !fv.Fed.Sync {
 					return fmt.Errorf("session %d segment %d begins with video unit %d which is not a random access sample", si, gi, fv.Fed.Idx)
 				}
 			}
@@ -436,7 +441,11 @@ func TestVerifC27Crash(t *testing.T) {
 
 		srv := rbNewServer(built.PathConfs())
 
-		if err := c27Closed(built, disk, srv, tol); err != nil {
+		listTol := tol
+		if ragged {
+			listTol = time.Millisecond + tol // mvhd durations are whole milliseconds
+		}
+		if err := c27Closed(built, disk, srv, listTol); err != nil {
 			t.Fatalf("normally closed segments: %v\nspec: %s", err, spec)
 		}
 		for si := range disk {
@@ -522,7 +531,7 @@ func TestVerifC27Crash(t *testing.T) {
 				// /list is still checked for torn tails (only /get is affected by that class)
 				if known == c27KeyTornTail {
 					code, _, body := rbCall(srv, "list", url.Values{"path": {rbPathName}})
-					if e := c27CheckList(code, body, ex.Spans, tol); e != nil {
+					if e := c27CheckList(code, body, ex.Spans, listTol); e != nil {
 						t.Fatalf("crash state %s: /list: %v\nspec: %s", detail, e, desc)
 					}
 				}
@@ -530,7 +539,7 @@ func TestVerifC27Crash(t *testing.T) {
 			}
 
 			code, _, body := rbCall(srv, "list", url.Values{"path": {rbPathName}})
-			fail("/list", c27CheckList(code, body, ex.Spans, tol))
+			fail("/list", c27CheckList(code, body, ex.Spans, listTol))
 
 			for _, format := range []string{"fmp4", "mp4"} {
 				q := url.Values{"path": {rbPathName}, "start": {start.Format(time.RFC3339Nano)}, "duration": {"1h"}, "format": {format}}
@@ -583,4 +592,156 @@ func TestVerifC27Crash(t *testing.T) {
 		}
 		rec.Case(nontrivial, desc, cl...)
 	})
+}
+
+// ---------------------------------------------------------------------------------------------------------------
+// regression tests (plain Go) pinning the confirmed defects
+
+func c27RegressRecording(t *testing.T, audio bool) (*rbBuilt, []rbDiskSession, *Server) {
+	t.Helper()
+	dir, err := os.MkdirTemp(os.Getenv("VERIF_WORKDIR"), "c27r-")
+	if err != nil {
+		t.Fatal(err)
+	}
+	t.Cleanup(func() { os.RemoveAll(dir) })
+	audioMs := 0
+	a := ""
+	if audio {
+		audioMs, a = 20, "opus"
+	}
+	spec := &rbSpec{
+		Video: "av1", Audio: a, PartDur: 100 * time.Millisecond, SegDur: 500 * time.Millisecond,
+		Sessions: []rbSession{rbFixedSession(time.Date(2024, 3, 5, 10, 0, 0, 0, time.UTC), 50, 5, audioMs, 0, 1250)},
+	}
+	built, err := rbBuild(dir, spec)
+	if err != nil {
+		t.Fatalf("builder: %v", err)
+	}
+	disk, problems := rbLoadDisk(built)
+	if len(problems) != 0 {
+		t.Fatalf("builder: %v", problems)
+	}
+	if len(disk[0].Segs) != 3 {
+		t.Fatalf("builder: expected 3 segments, got %d", len(disk[0].Segs))
+	}
+	return built, disk, rbNewServer(built.PathConfs())
+}
+
+// A crash between os.Create and the first write leaves an empty last segment (the recorder's OnSegmentCreate callback
+// fires exactly in that state). The two earlier, intact segments (1 s of media) must still be listed and served.
+func TestVerifC27RegressEmptyLastSegment(t *testing.T) {
+	if kit.Known(c27KeyUnparsable) {
+		t.Skip("listed as known finding")
+	}
+	built, disk, srv := c27RegressRecording(t, false)
+	v := &c27Victim{Sess: 0, Seg: 2, Data: disk[0].Segs[2].Data, Info: disk[0].Segs[2].Info}
+	if err := os.WriteFile(disk[0].Segs[2].Path, nil, 0o644); err != nil {
+		t.Fatal(err)
+	}
+	ex := c27ExpectFor(disk, built.Spec, v, 0, 0)
+	code, _, body := rbCall(srv, "list", url.Values{"path": {rbPathName}})
+	if err := c27CheckList(code, body, ex.Spans, 2*time.Microsecond); err != nil {
+		t.Errorf("/list with an empty last segment next to two intact ones: %v", err)
+	}
+	start := disk[0].Segs[0].Start
+	for _, format := range []string{"fmp4", "mp4"} {
+		q := url.Values{"path": {rbPathName}, "start": {start.Format(time.RFC3339Nano)}, "duration": {"1h"}, "format": {format}}
+		code, _, body := rbCall(srv, "get", q)
+		if err := c27CheckGet(code, body, format, built.Spec, start, ex.Want, ex.Extra, 1); err != nil {
+			t.Errorf("/get %s with an empty last segment next to two intact ones: %v", format, err)
+		}
+	}
+}
+
+// The last segment is cut 10 bytes into the mdat of its second part (first part complete): every sample of the two
+// closed segments and of the complete part must be served.
+func TestVerifC27RegressTornTail(t *testing.T) {
+	if kit.Known(c27KeyTornTail) {
+		t.Skip("listed as known finding")
+	}
+	built, disk, srv := c27RegressRecording(t, false)
+	v := &c27Victim{Sess: 0, Seg: 2, Data: disk[0].Segs[2].Data, Info: disk[0].Segs[2].Info}
+	if len(v.Info.Parts) < 2 {
+		t.Fatalf("builder: last segment has %d parts", len(v.Info.Parts))
+	}
+	off := v.Info.Parts[1].MoofEnd + 10
+	if err := os.WriteFile(disk[0].Segs[2].Path, c27Render(v, c27State{Off: off, Dur0: true}), 0o644); err != nil {
+		t.Fatal(err)
+	}
+	ex := c27ExpectFor(disk, built.Spec, v, 1, off)
+	code, _, body := rbCall(srv, "list", url.Values{"path": {rbPathName}})
+	if err := c27CheckList(code, body, ex.Spans, 2*time.Microsecond); err != nil {
+		t.Errorf("/list: %v", err)
+	}
+	start := disk[0].Segs[0].Start
+	for _, format := range []string{"fmp4", "mp4"} {
+		q := url.Values{"path": {rbPathName}, "start": {start.Format(time.RFC3339Nano)}, "duration": {"1h"}, "format": {format}}
+		code, _, body := rbCall(srv, "get", q)
+		if err := c27CheckGet(code, body, format, built.Spec, start, ex.Want, ex.Extra, 1); err != nil {
+			t.Errorf("/get %s with the last segment cut inside its second part: %v", format, err)
+		}
+	}
+}
+
+// Header torn right after the moov box header and zero-filled to 4 kB by the file system: mvhd timescale reads 0.
+// Pinned through /get (same goroutine, so the panic can be observed); through /list the same division runs in a
+// goroutine of parseSegments and takes the process down.
+func TestVerifC27RegressTimescaleZero(t *testing.T) {
+	if kit.Known(rbKeyTimescaleZero) {
+		t.Skip("listed as known finding")
+	}
+	_, disk, srv := c27RegressRecording(t, false)
+	v := &c27Victim{Sess: 0, Seg: 2, Data: disk[0].Segs[2].Data, Info: disk[0].Segs[2].Info}
+	moov := 0
+	for _, b := range v.Info.Boxes {
+		if b.Type == "moov" {
+			moov = b.Off
+		}
+	}
+	rendered := c27Render(v, c27State{Off: moov + 8, Dur0: true, ZeroFill: true})
+	if !rbWouldDivideByZero(rendered) {
+		t.Fatalf("harness: state not in the expected class")
+	}
+	if err := os.WriteFile(disk[0].Segs[2].Path, rendered, 0o644); err != nil {
+		t.Fatal(err)
+	}
+	start := disk[0].Segs[2].Start
+	func() {
+		defer func() {
+			if r := recover(); r != nil {
+				t.Errorf("/get on a segment whose header was torn inside moov and zero-filled panicked: %v", r)
+			}
+		}()
+		q := url.Values{"path": {rbPathName}, "start": {start.Format(time.RFC3339Nano)}, "duration": {"10s"}}
+		rbCall(srv, "get", q)
+	}()
+}
+
+// Video key frame at t=0, audio every 20 ms from t=+1 ms: the audio track processes its first sample first, the segment
+// starts at +1 ms and the key frame is discarded as "too late".
+func TestVerifC27RegressFirstKeyframeDiscarded(t *testing.T) {
+	if kit.Known(c27KeyFirstKeyframe) {
+		t.Skip("listed as known finding")
+	}
+	dir, err := os.MkdirTemp(os.Getenv("VERIF_WORKDIR"), "c27r-")
+	if err != nil {
+		t.Fatal(err)
+	}
+	defer os.RemoveAll(dir)
+	spec := &rbSpec{
+		Video: "av1", Audio: "opus", PartDur: 100 * time.Millisecond, SegDur: 500 * time.Millisecond,
+		Sessions: []rbSession{rbFixedSession(time.Date(2024, 3, 5, 10, 0, 0, 0, time.UTC), 50, 5, 20, 1, 700)},
+	}
+	built, err := rbBuild(dir, spec)
+	if err != nil {
+		t.Fatalf("builder: %v", err)
+	}
+	disk, _ := rbLoadDisk(built)
+	if len(disk) == 0 || len(disk[0].Tracks[0]) == 0 {
+		t.Fatalf("builder: no video on disk")
+	}
+	if fv := disk[0].Tracks[0][0]; fv.NonSync {
+		t.Errorf("the recording begins with video unit %d (non-sync, t=%v); key frame unit 0 at t=0 was fed first but is not on disk",
+			fv.Fed.Idx, fv.Fed.T.Sub(spec.Sessions[0].Start))
+	}
 }
